@@ -214,7 +214,11 @@ def run_case(case: dict) -> dict:
             extra["time_points_per_step"] = rng.randint(1, 4)
         else:
             total = float(sum(durs))
-            extra["time_points"] = np.array(sorted({0.25 * i for i in range(1, int(total / 0.25) + 1) if rng.random() < 0.5} | {total}), dtype=float)
+            pts_ = {0.25 * i for i in range(1, int(total / 0.25) + 1) if rng.random() < 0.5} | {total}
+            if rng.random() < 0.4:
+                pts_ |= {total + 0.5, total + 1.0}  # requested points after the last protocol step (not simulated)
+                beyond_end = 1
+            extra["time_points"] = np.array(sorted(pts_), dtype=float)
     inner = None
     if k == "scan_steady_state":
         sp = rng.choice(pnames)
@@ -239,7 +243,7 @@ def run_case(case: dict) -> dict:
     modes += [{"parallel": True, "cores": c} for c in cores]
     viols: list[dict] = []
     counters: dict[str, int] = {f"kind:{kind}": 1, "rows": len(table), "failing_rows_planned": len(fail_rows),
-                                "with_y0": int("y0" in extra), "rows_failing_in_a_later_protocol_step": int("late_failures" in locals()), "duplicate_row_labels": int(not table.index.is_unique), "column_overrides_assignment_defined_parameter": int(info["ia"] and "k1" in table.columns), "y0_overlaps_table_column": int(any(v in table.columns for v in extra.get("y0", {})))}
+                                "with_y0": int("y0" in extra), "time_points_beyond_the_protocol": int("beyond_end" in locals()), "rows_failing_in_a_later_protocol_step": int("late_failures" in locals()), "duplicate_row_labels": int(not table.index.is_unique), "column_overrides_assignment_defined_parameter": int(info["ia"] and "k1" in table.columns), "y0_overlaps_table_column": int(any(v in table.columns for v in extra.get("y0", {})))}
     ctx = {"kind": kind, "table": {"index": [str(i) for i in table.index], **{c: table[c].tolist() for c in table.columns}},
            "extra": {kk: (v.tolist() if hasattr(v, "tolist") else str(v)) for kk, v in extra.items()}, "ia_model": info["ia"], "spec": spec}
     # ---- oracle per row ------------------------------------------------------
